@@ -19,7 +19,7 @@ Clause(e) ==
   ELSE IF {<<SetOf(g[1]), SetOf(g[2])>> : g \in SetOf(e.groups)} # d.groups THEN "group_terms_differ"
   ELSE "none"
 Drift(e) ==
-  LET v == ImplDen(IEval(e.f, FALSE)) IN
+  LET v == ImplDen(IEval(e.f, TermBySet)) IN
     v.exc # e.exc \/ (~e.exc /\ (v.icpt # e.icpt \/ v.terms # {SetOf(t) : t \in SetOf(e.terms)}
                                 \/ v.groups # {<<SetOf(g[1]), SetOf(g[2])>> : g \in SetOf(e.groups)}))
 Init == i = 1 /\ nbad = 0
